@@ -6,6 +6,7 @@ package c11
 import (
 	"context"
 	"net/url"
+	"strings"
 
 	"github.com/ory/fosite"
 	"github.com/ory/fosite/handler/par"
@@ -98,4 +99,52 @@ func ZZ_C11_par_gate() {
 	zz.Assert(zz.Not(insecure(x)), "request pushed with plain http only on loopback/localhost/*.localhost")
 	zz.Cover("pushed-local-http", x.Lscheme == "http")
 	zz.Cover("pushed-other-scheme", x.Lscheme != "http")
+}
+
+// ZZ_C11_two_requests: two authorization requests of one client on ONE provider, both without redirect_uri
+// (the single registered URI applies): whatever the first response looked like (code in the query, or a
+// redirected error), the second redirect again targets exactly the registered URI - nothing of the first
+// response is left in it.
+func ZZ_C11_two_requests() {
+	w := world.New(world.Options{})
+	x := zzuri.New("u", zzuri.Opt{SchemeKinds: 1, HostKinds: 2, HostLen: 10, NoFrag: true, HostNonEmpty: true, KvQuery: true, HasQuery: 1})
+	zz.Assume(zz.Or(x.Lscheme == "https", zzuri.RefLocal(x.Hostname)))
+	w.Store.Clients["c1"].(*fosite.DefaultClient).RedirectURIs = []string{x.Raw}
+	do := func(responseType, state string, fail bool) (string, bool) {
+		form := url.Values{"client_id": {"c1"}, "response_type": {responseType}, "scope": {"photos"}, "state": {state}}
+		ar, err := w.Provider.NewAuthorizeRequest(w.Ctx, world.Get(form))
+		if err != nil {
+			return "", false
+		}
+		rw := world.NewRecorder()
+		if fail {
+			w.Provider.WriteAuthorizeError(w.Ctx, rw, ar, fosite.ErrAccessDenied)
+		} else {
+			ar.GrantScope("photos")
+			resp, err := w.Provider.NewAuthorizeResponse(w.Ctx, ar, world.NewSession("peter"))
+			if err != nil {
+				return "", false
+			}
+			w.Provider.WriteAuthorizeResponse(w.Ctx, rw, ar, resp)
+		}
+		return rw.H.Get("Location"), true
+	}
+	first := zz.Choice("first", 2) == 1
+	loc1, ok1 := do("code", "state-of-the-first-request", first)
+	zz.Assume(ok1 && loc1 != "")
+	secondRT := []string{"code", "token"}[zz.Choice("second", 2)]
+	loc2, ok2 := do(secondRT, "state-of-the-second-request", false)
+	zz.Assume(ok2)
+	zz.Assert(loc2 != "", "second request: redirected")
+	// (the registered URI has neither query nor fragment here: the response parameters follow it directly)
+	want := x.Raw + "?"
+	if secondRT == "token" {
+		want = x.Raw + "#"
+	}
+	zz.Assert(strings.HasPrefix(loc2, want), "second request: the redirect targets exactly the registered URI")
+	if secondRT == "token" {
+		before, _, _ := strings.Cut(loc2, "#")
+		zz.Assert(before == x.Raw, "second request (fragment mode): no query is added to the registered URI")
+	}
+	zz.Cover("two-requests:first-query-then-fragment", secondRT == "token")
 }
